@@ -5,7 +5,7 @@
 //! PRNG that only the baton holder touches, or read from an explicit recorded schedule.
 
 use crate::alloc;
-use crate::outcome::{outcome_of_result, run_lex, BudgetExceeded, InjectedCrash, Outcome};
+use crate::outcome::{outcome_of_result_v, run_lex, BudgetExceeded, InjectedCrash, Outcome};
 use crate::reference::budget_for;
 use crate::util::{Hasher, Json, Rng, H128};
 use sas_lexer::verif::{self, Event, Knobs};
@@ -885,6 +885,8 @@ fn do_read(shared: &Arc<Shared>, me: usize, op_idx: usize, slot: u8) {
     let Some(arc) = arc else { return };
     let mut n = 0u32;
     let mut saw_lex = false;
+    // the order in which the accessors are called varies from read to read
+    let variant = ((op_idx + me) % 4) as u32;
     let outcome = {
         let mut tick = || {
             n += 1;
@@ -903,9 +905,9 @@ fn do_read(shared: &Arc<Shared>, me: usize, op_idx: usize, slot: u8) {
                 #[cfg(feature = "opti_stats")]
                 max_mode_stack_depth: arc.res.max_mode_stack_depth,
             };
-            outcome_of_result(&arc.text, &copy, &mut tick)
+            outcome_of_result_v(&arc.text, &copy, &mut tick, variant)
         } else {
-            outcome_of_result(&arc.text, &arc.res, &mut tick)
+            outcome_of_result_v(&arc.text, &arc.res, &mut tick, variant)
         }
     };
     let key = outcome.key();
